@@ -263,6 +263,12 @@ func (e *Emitter) emitScriptStatement(scriptStmt *ast.ScriptStatement, textLabel
 				branchBehavior: &breakContext{destChunkID: destChunkID},
 			}
 			finalChunks[completeChunk.id] = completeChunk
+			if !curChunk.isLastStatement(i) {
+				// Labels could occur after the break, so the remaining statements
+				// still have to be emitted, even though nothing falls into them.
+				chunkCounter++
+				remainingChunks = append(remainingChunks, curChunk.createPostLogicChunk(chunkCounter, i))
+			}
 		} else if stmt, ok := curChunk.statements[i].(*ast.ContinueStatement); ok {
 			destChunkID, ok := breakStatementOriginChunks[stmt.LoopStatment]
 			if !ok {
